@@ -296,6 +296,35 @@ class FaultRun(object):
             ordinals.append((k, tt, verb, table))
         self.ordinals = ordinals
         self.win_alloc, self.win_tail = alloc_window(t.ops, kind)
+        # Preferred: the statements executed while _set_allocations (the
+        # function the property's anchors name as carrying the retry) is on
+        # the Python stack; robust against re-ordering of statements inside
+        # it.  The SQL-shape window above is the fall-back when no such
+        # frame was seen (renamed function).
+        body = set(k_ for k_, lb in enumerate(t.stmt_labels)
+                   if lb == '_set_allocations')
+        if body and kind in ALLOC_KINDS:
+            # ordinals of the same top-level transaction after the body
+            txn_of = {}
+            txn = 0
+            k_ = -1
+            for (tt, verb, table) in t.ops:
+                if tt == 'B':
+                    if verb == 'top':
+                        txn += 1
+                    continue
+                if tt == 'R':
+                    continue
+                k_ += 1
+                txn_of[k_] = txn
+            last = max(body)
+            tail = set(x for x, tx in txn_of.items()
+                       if tx == txn_of[last] and x > last and
+                       t.ops and self._is_stmt(t.ops, x))
+            if kind == 'reshape':
+                tail = set()    # the final inventory step follows there
+            self.win_alloc = body | tail
+            self.win_tail = tail
         if self.twin_status >= 400:
             self.win_alloc, self.win_tail = set(), set()
         self.win_dup = dupkey_window(t.ops, kind)
@@ -314,6 +343,17 @@ class FaultRun(object):
                 self.one_crash(R, plan)
             w.restore(self.snap0)
         return self.findings
+
+    @staticmethod
+    def _is_stmt(ops, ordinal):
+        k_ = -1
+        for (tt, verb, table) in ops:
+            if tt in ('B', 'R'):
+                continue
+            k_ += 1
+            if k_ == ordinal:
+                return tt == 'S'
+        return False
 
     def make_plans(self):
         rng = self.rng
@@ -405,7 +445,8 @@ class FaultRun(object):
         live = []
         for n_, ctx in enumerate(t.fired_ctx):
             tabs = [tb for (_, tb) in ctx]
-            if ('DELETE', 'allocations') in ctx:
+            if t.fired_label[n_] == '_set_allocations' or \
+                    ('DELETE', 'allocations') in ctx:
                 pos_ = 'alloc-window'
             elif n_ > 0 and tabs and all(tb == 'consumers' for tb in tabs):
                 pos_ = 'consumer-cleanup'
